@@ -226,6 +226,16 @@ func (fe *analyticFieldEngine) applyCall(s *Stream, row map[string]any, c types.
 	if err != nil || args == nil {
 		args = []any{}
 	}
+	// A column the row does not carry is NULL. parseFunctionArgs passes words it
+	// cannot resolve through as strings (unquoted literals rely on that), so a
+	// missing column reached lag/latest/had_changed/acc_* as its own name.
+	if len(args) == len(c.Args) {
+		for i, a := range c.Args {
+			if isMissingColumnRef(a, row) {
+				args[i] = nil
+			}
+		}
+	}
 	if hasStarArg(c.Args) {
 		args = expandStarArgs(c.Args, row, args)
 	}
@@ -323,6 +333,30 @@ func expandStarArgs(args []string, row map[string]any, parsed []any) []any {
 		out = append(out, row[k])
 	}
 	return out
+}
+
+// isMissingColumnRef reports whether the argument expression is a bare column
+// reference (an identifier, not a boolean/null word, number, quoted string or
+// expression) that the row has no value for.
+func isMissingColumnRef(arg string, row map[string]any) bool {
+	a := strings.TrimSpace(arg)
+	if a == "" {
+		return false
+	}
+	switch strings.ToLower(a) {
+	case "true", "false", "null":
+		return false
+	}
+	for i := 0; i < len(a); i++ {
+		ch := a[i]
+		isLetter := ch == '_' || (ch >= 'a' && ch <= 'z') || (ch >= 'A' && ch <= 'Z')
+		isDigit := ch >= '0' && ch <= '9'
+		if !(isLetter || (i > 0 && (isDigit || ch == '.'))) {
+			return false
+		}
+	}
+	_, exists := lookupRowField(row, a)
+	return !exists
 }
 
 // literalValue 解析标量字面量（true/false/数字/带引号字符串），用于 "*" 致解析失败时
